@@ -251,7 +251,298 @@ fn nt_c16(c: &Case, _out: &Outcome, h: &Hist) -> bool {
     h.sends.iter().any(|s| s.begin < init_end) && c.nodes.iter().any(|n| n.parent.is_some())
 }
 
+// ---------------------------------------------------------------- time profiles
+use crate::gen::TimeOpts;
+use crate::oracle::{agenda, time};
+
+fn gen_c01(rng: &mut Rng, thorough: bool) -> Case {
+    let o = TimeOpts { aux_threads: if thorough && rng.pct(30) { 1 } else { 0 }, max_cmds: if thorough { 12 } else { 9 }, ..Default::default() };
+    let mut c = gen::gen_time(rng, &o);
+    c.profile = "agenda".into();
+    c
+}
+fn check_c01(case: &Case, out: &Outcome, h: &Hist, _g: &mut Group) -> Vec<Violation> {
+    let mut v = oracle::common(case, out, h);
+    let ag = agenda::build(case, h);
+    v.extend(time::chronology(case, h, &ag));
+    v
+}
+fn nt_time(_c: &Case, _out: &Outcome, h: &Hist) -> bool {
+    h.handlers.iter().filter(|x| x.sid.is_some()).count() >= 2
+}
+
+fn gen_c07(rng: &mut Rng, thorough: bool) -> Case {
+    let o = TimeOpts { burst_pct: 85, invalid_pct: 2, cancel_pct: 8, max_cmds: if thorough { 14 } else { 10 }, max_nodes: 2, via_action_pct: 20, ..Default::default() };
+    let mut c = gen::gen_time(rng, &o);
+    // Small mailboxes so that every send of a burst suspends.
+    for n in c.nodes.iter_mut() {
+        if rng.pct(50) {
+            n.cap = 1;
+        }
+    }
+    c.profile = "same-time".into();
+    c
+}
+fn check_c07(case: &Case, out: &Outcome, h: &Hist, _g: &mut Group) -> Vec<Violation> {
+    let mut v = oracle::common(case, out, h);
+    let ag = agenda::build(case, h);
+    v.extend(time::same_time_order(case, h, &ag));
+    v
+}
+fn nt_c07(_c: &Case, out: &Outcome, _h: &Hist) -> bool {
+    probe(out, Probe::SeqActions) > 0
+}
+
+fn gen_c08(rng: &mut Rng, thorough: bool) -> Case {
+    let o = TimeOpts {
+        invalid_pct: 22,
+        aux_threads: if rng.pct(60) { if thorough { 2 } else { 1 } } else { 0 },
+        via_action_pct: 30,
+        zero_period_action: true,
+        max_cmds: if thorough { 12 } else { 9 },
+        ..Default::default()
+    };
+    let mut c = gen::gen_time(rng, &o);
+    c.profile = "validation".into();
+    c
+}
+fn check_c08(case: &Case, out: &Outcome, h: &Hist, _g: &mut Group) -> Vec<Violation> {
+    let mut v = oracle::common(case, out, h);
+    let ag = agenda::build(case, h);
+    v.extend(time::validation(case, h, &ag));
+    v
+}
+fn nt_c08(_c: &Case, _out: &Outcome, h: &Hist) -> bool {
+    h.scheds.iter().any(|r| matches!(r.res, Some(crate::ctx::Res::InvalidTime) | Some(crate::ctx::Res::NullPeriod))) && h.scheds.iter().any(|r| matches!(r.res, Some(crate::ctx::Res::Ok)))
+}
+
+fn gen_c09(rng: &mut Rng, thorough: bool) -> Case {
+    let o = TimeOpts { keyed_pct: 85, cancel_pct: 45, invalid_pct: 2, burst_pct: 50, periodic_pct: 35, max_cmds: if thorough { 14 } else { 10 }, aux_threads: if thorough && rng.pct(20) { 1 } else { 0 }, ..Default::default() };
+    let mut c = gen::gen_time(rng, &o);
+    c.profile = "cancel".into();
+    c
+}
+fn check_c09(case: &Case, out: &Outcome, h: &Hist, _g: &mut Group) -> Vec<Violation> {
+    let mut v = oracle::common(case, out, h);
+    let ag = agenda::build(case, h);
+    v.extend(time::cancellation(case, h, &ag));
+    v
+}
+fn nt_c09(_c: &Case, _out: &Outcome, h: &Hist) -> bool {
+    !h.cancels.is_empty() && h.handlers.iter().any(|x| x.sid.is_some())
+}
+
+/// C10: 1-4 periodic series scheduled by the driver, a horizon cut into a
+/// random partition of step/step_until calls, optional cancellation at a fixed
+/// simulated time. Variants are different partitions of the same agenda.
+fn gen_c10(rng: &mut Rng, _thorough: bool) -> Case {
+    let o = TimeOpts { max_nodes: 2, model_sched: false, ..Default::default() };
+    let mut c = gen::gen_time(rng, &o);
+    let units: &[u64] = &[1, 1, 2, 7, 1_000, 999_999_937, 1_000_000_000, 3_600_000_000_000];
+    let unit = *rng.pick(units);
+    let n = c.nodes.len();
+    let kinds = c.nodes[0].on.len().max(1) as u64;
+    let mut script = Vec::new();
+    let series = rng.range(1, 4);
+    for s in 0..series {
+        let period = unit * rng.range(1, 4);
+        let keyed = rng.pct(50);
+        let mode = if keyed { Mode::KeyedPeriodic(s as u8, period) } else { Mode::Periodic(period) };
+        let when = if rng.pct(50) { When::Abs(unit * rng.range(1, 6)) } else { When::Rel(unit * rng.range(1, 6)) };
+        script.push(Cmd::Sched { target: rng.usize(n) as u16, kind: rng.below(kinds) as u8, when, mode, via: Via::Direct });
+    }
+    let horizon = rng.range(6, 30);
+    let cancel_at = if rng.pct(50) { Some((rng.range(1, horizon - 1), rng.below(series) as u8)) } else { None };
+    c.script = script;
+    c.aux.clear();
+    c.profile = format!("periodic:unit={};horizon={};cancel={:?}", unit, horizon, cancel_at);
+    // The partition is chosen by `variants_c10`.
+    c
+}
+fn parse_c10(profile: &str) -> Option<(u64, u64, Option<(u64, u8)>)> {
+    let rest = profile.strip_prefix("periodic:")?;
+    let mut unit = 0;
+    let mut horizon = 0;
+    let mut cancel = None;
+    for kv in rest.split(';') {
+        let (k, v) = kv.split_once('=')?;
+        match k {
+            "unit" => unit = v.parse().ok()?,
+            "horizon" => horizon = v.parse().ok()?,
+            "cancel" => {
+                if let Some(inner) = v.strip_prefix("Some((").and_then(|x| x.strip_suffix("))")) {
+                    let (a, b) = inner.split_once(", ")?;
+                    cancel = Some((a.parse().ok()?, b.parse().ok()?));
+                }
+            }
+            _ => {}
+        }
+    }
+    Some((unit, horizon, cancel))
+}
+fn variants_c10(c: &Case, thorough: bool) -> Vec<Case> {
+    let Some((unit, horizon, cancel)) = parse_c10(&c.profile) else { return vec![c.clone()] };
+    let nvar = if thorough { 6 } else { 4 };
+    let mut out = Vec::new();
+    let mut rng = Rng::new(crate::rng::mix(unit ^ horizon, c.cfg.t0));
+    for vi in 0..nvar {
+        let mut x = c.clone();
+        if vi > 0 && rng.pct(50) {
+            x.cfg.threads = if x.cfg.threads <= 1 { 2 } else { 1 };
+        }
+        let mut script = c.script.clone();
+        // segment ends (in units after t0)
+        let mut segs: Vec<(u64, u64, bool)> = Vec::new(); // (from, to, steps_allowed)
+        match cancel {
+            Some((tc, _)) => {
+                segs.push((0, tc, false));
+                segs.push((tc, horizon, true));
+            }
+            None => segs.push((0, horizon, true)),
+        }
+        for (si, (from, to, steps_ok)) in segs.iter().enumerate() {
+            if si == 1 {
+                if let Some((_, slot)) = cancel {
+                    script.push(Cmd::Cancel { slot, how: rng.below(3) as u8 });
+                }
+            }
+            let mut cur = *from;
+            while cur < *to {
+                let next = if vi == 0 { *to } else { (cur + rng.range(1, (*to - cur).max(1))).min(*to) };
+                if *steps_ok && vi > 0 && rng.pct(30) {
+                    for _ in 0..rng.range(1, 3) {
+                        script.push(Cmd::Step);
+                    }
+                }
+                script.push(Cmd::StepUntil { when: When::Abs(unit * next) });
+                cur = next;
+            }
+        }
+        x.script = script;
+        out.push(x);
+    }
+    out
+}
+fn check_c10(case: &Case, out: &Outcome, h: &Hist, g: &mut Group) -> Vec<Violation> {
+    let mut v = oracle::common(case, out, h);
+    let ag = agenda::build(case, h);
+    v.extend(time::periodic(case, h, &ag));
+    if let Some((unit, horizon, _)) = parse_c10(&case.profile) {
+        let hz = crate::node::tt_ns(case.cfg.t0 + unit * horizon);
+        let log: Vec<Vec<crate::ctx::T>> = time::series_log(h, &ag).into_iter().map(|s| s.into_iter().filter(|t| *t <= hz).collect()).collect();
+        let text = format!("{:?}", log);
+        if out.failure.is_none() {
+            match &g.reference {
+                None => {
+                    g.reference = Some(text);
+                    g.reference_desc = format!("{:?}", case.script);
+                }
+                Some(r) => {
+                    if *r != text {
+                        v.push(Violation::new(
+                            "c10_partition_dependence",
+                            format!("per-series delivery log up to the horizon depends on how time is advanced:\n  script A: {}\n  log A: {}\n  script B: {:?}\n  log B: {}", g.reference_desc, r, case.script, text),
+                        ));
+                    }
+                }
+            }
+        }
+    }
+    v
+}
+fn nt_c10(_c: &Case, _out: &Outcome, h: &Hist) -> bool {
+    h.handlers.iter().filter(|x| x.sid.is_some()).count() >= 3
+}
+
+fn gen_c18(rng: &mut Rng, thorough: bool) -> Case {
+    let o = TimeOpts { clock_lag_pct: 30, invalid_pct: 3, max_cmds: if thorough { 12 } else { 9 }, ..Default::default() };
+    let mut c = gen::gen_time(rng, &o);
+    c.profile = "clock".into();
+    c
+}
+fn check_c18(case: &Case, out: &Outcome, h: &Hist, _g: &mut Group) -> Vec<Violation> {
+    let mut v = oracle::common(case, out, h);
+    let ag = agenda::build(case, h);
+    v.extend(time::clock_protocol(case, h, &ag));
+    v
+}
+fn nt_c18(_c: &Case, _out: &Outcome, h: &Hist) -> bool {
+    h.syncs.iter().any(|s| s.2.is_some()) && h.syncs.len() >= 3
+}
+
 pub static PROPS: &[PropSpec] = &[
+    PropSpec {
+        id: "C01",
+        gen: gen_c01,
+        check: check_c01,
+        nontrivial: nt_time,
+        variants: single_variant,
+        schedules_quick: 6,
+        schedules_thorough: 16,
+        cases_quick: 12_000,
+        cases_thorough: 240_000,
+        rule: "a case is a seeded agenda (driver and model scheduling requests of all kinds, ns-to-hour scales, equal deadlines, cancels) driven by step/step_until/process_* on ST or MT; distinct = distinct (decision sequence, history); non-trivial = at least two scheduled actions fired",
+    },
+    PropSpec {
+        id: "C07",
+        gen: gen_c07,
+        check: check_c07,
+        nontrivial: nt_c07,
+        variants: single_variant,
+        schedules_quick: 8,
+        schedules_thorough: 24,
+        cases_quick: 10_000,
+        cases_thorough: 200_000,
+        rule: "a case is a seeded set of same-deadline bursts from the global scheduler and from model contexts (one-shot, keyed, periodic, EventSource actions) on ST or MT; distinct = distinct (decision sequence, history); non-trivial = at least two actions of one origin and time were chained (SeqFuture path)",
+    },
+    PropSpec {
+        id: "C08",
+        gen: gen_c08,
+        check: check_c08,
+        nontrivial: nt_c08,
+        variants: single_variant,
+        schedules_quick: 8,
+        schedules_thorough: 24,
+        cases_quick: 10_000,
+        cases_thorough: 200_000,
+        rule: "a case mixes valid and invalid scheduling requests (past/now deadlines, zero periods, Scheduler::schedule with EventSource actions) from the driver, models and 0-2 concurrent scheduler threads; distinct = distinct (decision sequence, history); non-trivial = at least one request rejected and one accepted",
+    },
+    PropSpec {
+        id: "C09",
+        gen: gen_c09,
+        check: check_c09,
+        nontrivial: nt_c09,
+        variants: single_variant,
+        schedules_quick: 6,
+        schedules_thorough: 16,
+        cases_quick: 12_000,
+        cases_thorough: 240_000,
+        rule: "a case schedules keyed one-shot/periodic events and cancels them (key, clone, auto-key drop) from the driver and from models at arbitrary points; distinct = distinct (decision sequence, history); non-trivial = at least one cancellation and one firing",
+    },
+    PropSpec {
+        id: "C10",
+        gen: gen_c10,
+        check: check_c10,
+        nontrivial: nt_c10,
+        variants: variants_c10,
+        schedules_quick: 3,
+        schedules_thorough: 6,
+        cases_quick: 8_000,
+        cases_thorough: 160_000,
+        rule: "a case is 1-4 periodic series (period 1 ns..hours, commensurable periods) with an optional cancellation, executed under 4-6 different partitions of the horizon into step/step_until calls (and on ST/MT); distinct = distinct (decision sequence, history); non-trivial = at least three periodic occurrences fired",
+    },
+    PropSpec {
+        id: "C18",
+        gen: gen_c18,
+        check: check_c18,
+        nontrivial: nt_c18,
+        variants: single_variant,
+        schedules_quick: 5,
+        schedules_thorough: 12,
+        cases_quick: 12_000,
+        cases_thorough: 240_000,
+        rule: "a case is an agenda stepped under a scripted clock (Synchronized / OutOfSync(lag) per call) with tolerance unset / 0 / between lags / huge; every (clock answer index x script) combination is generated from the seed; distinct = distinct (decision sequence, history); non-trivial = at least one OutOfSync answer and three synchronize calls",
+    },
     PropSpec {
         id: "C02",
         gen: gen_c02,
